@@ -35,6 +35,9 @@ RULE += (
 RULE += (
     ' Round 9: every pooled name also enters a class through `required` WITHOUT a declaration: the JSON name must be recorded, the attribute must be the one of the declared route, an instance must build.'
 )
+RULE += (
+    ' Round 10: every pooled name is also declared with the trivial schema ({} / true) next to a pattern that matches it, on a model class and on an untyped element, and read back under its Python name.'
+)
 ASSUMPTIONS = [
     "identifier/keyword predicates are Python's own (str.isidentifier, keyword.iskeyword, compile())",
     "the exhaustive part uses _parse_attribute_name/_title_format as the fast path; the end-to-end path goes through parse_element",
@@ -103,6 +106,27 @@ def end_to_end(name):
                 out.append("item-access-does-not-hold-the-value")
         except Exception as exc:  # noqa: BLE001
             out.append("item-access-fails:" + type(exc).__name__)
+    # declared with the trivial schema ({} / true) while a pattern says what the member looks like: still a declared
+    # property, read under its Python name (model class and untyped element)
+    for trivial in ({}, True):
+        for typed in (True, False):
+            both = {"properties": {name: trivial}, "patternProperties": {"": {"type": "integer"}}}
+            if typed:
+                both.update({"type": "object", "title": "Holder"})
+            pb = observe.safe_parse(both)
+            if pb[0] != "ok":
+                out.append("trivial-declaration+pattern:parse-" + pb[0])
+                continue
+            bgot = observe.verdict(pb[1], {name: 1})
+            if bgot[0] != "ok":
+                out.append("trivial-declaration+pattern:instance-" + bgot[0])
+                continue
+            try:
+                held = getattr(bgot[1], attr) if typed else bgot[1][attr]
+                if held != 1:
+                    out.append("trivial-declaration+pattern:attribute-does-not-hold-the-value")
+            except Exception as exc:  # noqa: BLE001
+                out.append("trivial-declaration+pattern:not-readable-under-the-python-name:" + type(exc).__name__)
     # the other way a name enters a class: listed in `required` without being declared
     undeclared = observe.safe_parse({"type": "object", "title": "Holder", "required": [name]})
     if undeclared[0] != "ok":
